@@ -419,25 +419,41 @@ def _seq_entries(rng: random.Random, keys: T.Sequence[str]) -> T.Dict[str, T.Tup
 
 
 def gen_sequence(rng: random.Random) -> T.List[T.Tuple[T.Any, ...]]:
-    """A history of one configuration_data() object: initial entries (set/set10/set_quoted are only
-    allowed before the first use), then 3-5 steps, each an optional merge_from() of another object
-    (new keys and overriding ones; merge_from is the mutator that still works after the object was
-    used) followed by one configure_file(): a template-less c / nasm / json header or a meson template
-    naming every key of the universe.  Ops:
-       ('init', entries)  ('merge', entries)  ('emit', kind, macro_name)   kind: c | nasm | json | template"""
+    """A history of a FAMILY of configuration_data() objects related by assignment (`b = a` copies: Syntax.md,
+    "all objects are immutable ... a new object is created and assigned to the name"; Configuration.md, "Copy
+    of immutable configuration_data is still immutable").  Object 0 gets initial entries; then 3-7 steps, each
+    an optional mutation of one member followed by one configure_file() of a (possibly different) member.
+    Mutations: merge_from() of a fresh object (works also after first use), set/set10/set_quoted (only while
+    the member - and, for a copy, the object it was copied from at copy time - has not been used), and
+    assignment to a new variable.  Half of the histories have a single object (use, merge, use again).  Ops:
+       ('init', entries) ('copy', src, dst) ('set', obj, entries) ('merge', obj, entries)
+       ('emit', obj, kind, macro_name)   kind: c | nasm | json | template
+       ('universe', keys) last"""
     universe = rng.sample(HEADER_KEYS, rng.randint(4, 9))
     rng.shuffle(universe)
     n0 = rng.randint(0, max(1, len(universe) // 2))
     ops: T.List[T.Tuple[T.Any, ...]] = [('init', _seq_entries(rng, universe[:n0]))]
-    nsteps = rng.randint(3, 5)
+    family = rng.random() < 0.5
+    used = [False]
+    nsteps = rng.randint(3, 5) if not family else rng.randint(4, 7)
     for step in range(nsteps):
-        if step > 0 and rng.random() < 0.8 or step == 0 and rng.random() < 0.2:
-            ks = rng.sample(universe, rng.randint(1, min(3, len(universe))))
-            ops.append(('merge', _seq_entries(rng, ks)))
+        if family and len(used) < 4 and (step == 0 or rng.random() < 0.35):
+            src = rng.randrange(len(used))
+            ops.append(('copy', src, len(used)))
+            used.append(used[src])
+        tgt = rng.randrange(len(used))
+        r = rng.random()
+        ks = rng.sample(universe, rng.randint(1, min(3, len(universe))))
+        if not used[tgt] and r < 0.6:
+            ops.append(('set', tgt, _seq_entries(rng, ks)))
+        elif step > 0 and r < 0.85 or r < 0.25:
+            ops.append(('merge', tgt, _seq_entries(rng, ks)))
+        who = rng.randrange(len(used))
         kind = rng.choice(['c', 'c', 'c', 'nasm', 'json', 'template', 'template'])
         if step == nsteps - 1 and rng.random() < 0.7:
             kind = rng.choice(['c', 'nasm'])
         macro = rng.choice([None, None, 'SEQ_GUARD_H']) if kind == 'c' else None
-        ops.append(('emit', kind, macro))
+        ops.append(('emit', who, kind, macro))
+        used[who] = True
     ops.append(('universe', list(universe)))
     return ops
